@@ -5,11 +5,14 @@
                  s:<id> submit   i idle   c close   o re-open (recover)   k:<n> skip-save-blocks
                  p:<0|1> writing-time target reached immediately / never   h hurry-up
     trace                                   -> ok <point name> <point name> …     (labels of the effect list)
-    crash <k>                               -> ok <tip1> <tip2> <coins2> <tip3> <coins3> <tie 0|1> <foreign 0|1> | panic <what>
+    crash <k>                               -> ok <tip1> <tip2> <coins2> <tip3> <coins3> <tie 0|1> <foreign 0|1> | panic <what> <foreign 0|1>
+    torn <k> <db 0|1> <old 0|1>             -> the same with UTXO.db (db = 1) and/or UTXO.old (old = 1) of that directory unreadable
+        (Model/PersistSpec.lean tearDb / restartFrom: a snapshot file cut short by power loss or a full disk)
         foreign = ghost flag: the restart read an undo file naming another block than the one it undid
         disk := first k effects applied; 1 = after NewChainExt, 2 = after the client's recovery loop,
         3 = after feeding every block of the workload + Idle
-    final                                   -> ok <tip> <coins> | panic <what>     (uninterrupted run)
+    final                                   -> ok <tip> <coins> <foreign 0|1> | panic <what>     (uninterrupted run; foreign = its ghost flag,
+        the hypothesis `(run bigs ops).foreign = false` of the theorems)
     pos <a 0|1> <L> <tok> …                 -> ok <data file length> <every record reads back its block 0|1> <id>:<fpos>:<blen> …
         positional block store (Model/PersistPos.lean): the directory holds the index records r:<id>:<fpos>:<blen> … and a data
         file of L bytes (anything beyond the indexed data is an orphaned tail); it is opened (LoadBlockIndex + Seek), then
@@ -22,6 +25,7 @@
         the data write and the index write + restart, o = restart; b = 1: the else-if variant of LoadBlockIndex (not what the code does)
 -/
 import GocoinV.Model.Persist
+import GocoinV.Model.PersistSpec
 import GocoinV.Model.PersistPos
 import GocoinV.Model.PersistRoll
 import GocoinV.Base.Proto
@@ -156,17 +160,29 @@ def step (st : OState) (toks : List String) : OState × String :=
     let w := run st.bigs st.ops
     match w.err with
     | some e => (st, s!"panic {e.replace " " "_"}")
-    | none => (st, s!"ok {w.n.tip} {coinsStr w.n.utxo}")
+    | none => (st, s!"ok {w.n.tip} {coinsStr w.n.utxo} {if w.foreign then 1 else 0}")
   | ["crash", k] =>
     if !st.loaded then (st, "bad-op") else
     match k.toNat? with
     | none => (st, "bad-op")
     | some k =>
       match crashAt st.bigs st.ops k with
-      | .error e => (st, s!"panic {e.replace " " "_"}")
+      | .error e => (st, s!"panic {e.replace " " "_"} {if crashForeign st.bigs st.ops k then 1 else 0}")
       | .ok (s1, s2, s3) =>
         let tie := (farthest s1.n).2.2
         (st, s!"ok {s1.n.tip} {s2.n.tip} {coinsStr s2.n.utxo} {s3.n.tip} {coinsStr s3.n.utxo} {if tie then 1 else 0} {if s3.foreign then 1 else 0}")
+  | ["torn", k, a, b] =>
+    if !st.loaded then (st, "bad-op") else
+    match k.toNat?, a.toNat?, b.toNat? with
+    | some k, some a, some b =>
+      if a > 1 || b > 1 then (st, "bad-op") else
+      let d := tearDb (applyAll {} ((run st.bigs st.ops).es.take k)) (a == 1) (b == 1)
+      match restartFrom d st.bigs st.ops with
+      | .error e => (st, s!"panic {e.replace " " "_"} {if restartForeign d st.bigs st.ops then 1 else 0}")
+      | .ok (s1, s2, s3) =>
+        let tie := (farthest s1.n).2.2
+        (st, s!"ok {s1.n.tip} {s2.n.tip} {coinsStr s2.n.utxo} {s3.n.tip} {coinsStr s3.n.utxo} {if tie then 1 else 0} {if s3.foreign then 1 else 0}")
+    | _, _, _ => (st, "bad-op")
   | _ => (st, "bad-op")
 
 def main : IO Unit := Proto.serve ({} : OState) step
